@@ -209,6 +209,28 @@ func (r *run) depibc(c, g, u, n int) {
 	}, nil, []tok{{g, n}}, nil, nil)
 }
 
+// xibc: precompile crossChain with the group's ERC-20 token and the voucher's channel as target (fee must be zero): ERC-20 ->
+// base coin -> voucher -> the real ibc Transfer.  Entry: keeper-level EVM message or signed MsgEthereumTx (r.pre).
+func (r *run) xibc(g, u, n int) {
+	grp := r.w.Groups[g]
+	receipt, err := sdk.Bech32ifyAddressBytes("px", r.w.Users[u].AccAddress().Bytes())
+	if err != nil {
+		panic(err)
+	}
+	target := "ibc/" + strings.TrimPrefix(r.ibc.channel, "channel-") + "/px"
+	data, err := crosschaintypes.GetABI().Pack("crossChain", grp.Erc20, receipt, bi(n), bi(0), fxtypes.MustStrToByte32(target), "")
+	if err != nil {
+		panic(err)
+	}
+	r.exec(fmt.Sprintf("xibc %d %d %d", g, u, n), func() string {
+		res := r.pre(u, big.NewInt(0), data)
+		if res == "ok" {
+			r.ibc.out.Add(r.ibc.out, bi(n))
+		}
+		return res
+	}, map[[2]int]int{{u, g}: -n}, nil, nil, nil)
+}
+
 // scriptedIbc: the witness of the Lean example (`Props/C04.lean`, cfgI), replayed on the real app
 func (r *run) scriptedIbc() {
 	r.ibcrecv(5, 0, 10)
@@ -220,6 +242,10 @@ func (r *run) scriptedIbc() {
 	r.depibc(1, 5, 2, 5)
 	r.base2ibc(5, 1, 2) // only 1 voucher is parked: refused
 	r.base2ibc(5, 1, 1)
+	r.xibc(5, 0, 3) // user 0 holds 7 ERC-20 of the token; nothing is parked any more: refused
+	r.ibcrecv(5, 2, 9)
+	r.ibc2base(5, 2, 9, false)
+	r.xibc(5, 0, 3)
 }
 
 // randomIbc: state-aware, boundary-biased against what the user holds / what is parked in the transfer module account
@@ -231,7 +257,17 @@ func (r *run) randomIbc() {
 		g = rng.Intn(len(r.w.Groups))
 	}
 	parked := int(r.voucherBal(transferAcc()).Int64())
-	switch k := rng.Intn(10); {
+	switch k := rng.Intn(12); {
+	case k >= 10:
+		for i := 0; i < bx.NUsers && r.ercBal(u, ibcGroup) == 0; i++ {
+			u = (u + 1) % bx.NUsers
+		}
+		n := r.amount(r.ercBal(u, ibcGroup))
+		if rng.Intn(3) == 0 {
+			n = parked + rng.Intn(2)
+		}
+		r.out.Count(fmt.Sprintf("ibc:xibc:parked-minus-n:%d", sign(parked-n)))
+		r.xibc(g, u, n)
 	case k < 3:
 		r.ibcrecv(g, u, 1+rng.Intn(30))
 	case k < 5:
